@@ -385,7 +385,12 @@ def read_ndjson(path, limit=None):
         for i, line in enumerate(f):
             if limit is not None and i >= limit:
                 break
-            out.append(json.loads(line))
+            try:
+                out.append(json.loads(line))
+            except ValueError:
+                if line.endswith("\n"):
+                    raise
+                break   # the last line of a trace whose writer was killed (watchdog exit) may be cut short
     return out
 
 
